@@ -50,4 +50,15 @@ theorem C19_model_passes_monitor (W L : Nat) (s0 s1 s : St) (a : Act) (h0 : Reac
     (h1 : step? s0 a = some s1) (hsteps : MonSound.Steps s1 s) :
     (Driver.WQ.obsOf s).started.all (· < s0.nextId) = true := MonSound.afterStop_at_stop_sound h0 ha h1 hsteps
 
+/-! ### Break after Stop: the drain loop reads `breaked` before every item -/
+
+/-- once Break has been called while the dispatcher is handing the remaining work to the workers (after an earlier Stop),
+    the item it is blocked on is still handed over, and everything behind it is skipped: it ends in `limbo` and never starts. -/
+theorem C19_break_after_stop_skips_rest (W L : Nat) (hW : 1 ≤ W) (hL : 1 ≤ L) (s s' t : St) (it : Item) (rest : List Item)
+    (hr : Reach W L s) (hd : s.disp = .drain (it :: rest)) (hb : s.breaked = true)
+    (hs : step? s .drainSend = some s') (hsteps : MonSound.Steps s' t) :
+    s'.chan = s.chan ++ [it] ∧ s'.disp = .drain [] ∧
+    ∀ x ∈ rest, x.id ∈ t.limbo.map (·.id) ∧ x.id ∉ t.started :=
+  breakAfterStop_skips_rest W L hW hL s s' t it rest hr hd hb hs hsteps
+
 end TV.C19
